@@ -167,7 +167,7 @@ def check(ctx, rep):
                             if name == "append":
                                 rep.ob("R-FIFO", "%s: enqueue only on submit" % fi.qualname, fi.name.startswith("submit"), "append to the queue outside submit", where_of(fi, e.node))
                     c = e.d["callee"]
-                    if c is not None and c.owner is ai and e.fn is fi and c.name != "__init__":
+                    if c is not None and c.owner is ai and e.fn is fi and c.name != "__init__" and fi.owner is not ai:
                         # direction of this update: the counter method's own `value op= <operand>` with the
                         # operand bound to this call's argument
                         for sgn in _update_signs(ctx, ai, c, e, csub):
@@ -240,7 +240,7 @@ def check(ctx, rep):
     cbfn = list(cbfns.values())[0]
     for fn, e in sorted(dec_sites.items()):
         rep.ob("R-COUNT", "%s: decrements the in-flight counter" % fn, fn == cbfn.qualname, "the in-flight counter is decremented outside the delegate-done callback %s" % cbfn.qualname, where_of(e.fn, e.node))
-    ps, it2 = ctx.paths(cbfn, tex if cbfn.owner is not None else None, depth=1)
+    ps, it2 = ctx.paths(cbfn, tex if cbfn.owner is not None else None, depth=3)
     for p in ps:
         decs = [s_ for s_ in p.evs("store") if s_.d.get("aug") == "-" and s_.d["target"][0] == "attr" and s_.d["target"][2] == csub]
         rep.ob("R-COUNT", "%s: decrements exactly once" % cbfn.qualname, len(decs) == 1 and p.status == "return", "found %d decrements on a callback path (status %s)" % (len(decs), p.status), where_of(cbfn), trace_of(p))
@@ -330,7 +330,8 @@ def _update_signs(ctx, ai, meth, call_ev, csub):
     """directions ('+' / '-') in which a call of a counter method changes the counter"""
     out = set()
     b = roles.bound(call_ev, ctx.prog)
-    ps, it = ctx.paths(meth, ai, depth=0)
+    ownm = set(m.key for m in ai.methods.values())
+    ps, it = ctx.paths(meth, ai, depth=2, inline=lambda callee, ev, path: callee.key in ownm)
     for p in ps:
         for s_ in p.evs("store"):
             t = s_.d["target"]
@@ -351,7 +352,7 @@ def _update_signs(ctx, ai, meth, call_ev, csub):
 
 
 def _decrements(ctx, F, csub):
-    ps, it = ctx.paths(F, F.owner, depth=1)
+    ps, it = ctx.paths(F, F.owner, depth=3)
     return any(s_.d.get("aug") == "-" and s_.d["target"][0] == "attr" and s_.d["target"][2] == csub for p in ps for s_ in p.evs("store"))
 
 
